@@ -460,6 +460,57 @@ def custom_text_spec_case(ctx):
     return n
 
 
+MARKUP = ['{@LATIN}', '{@JP}', '{@latin}', '{#Title=', '@KMIDI KARAOKE FILE', '@LENGL', '@LJAPN', '@TTitle', '\\', '/', '[chorus]', '<b>',
+          '%-', '\ufeff', 'charset=utf-8;', '\x1b$B', '&#233;', '\\u00e9', '+AOk-', '=?utf-8?q?', '\x00', '\r\n']
+
+
+def markup_text_cases(ctx, cs):
+    """Text that looks like it means something to somebody - karaoke code-set tags, RP-026 style braces, a BOM, an escape
+    sequence, a MIME word, an entity - is text: it comes back as it went in, what follows it in the file is still in the
+    file's charset, and decoding such an event outside a file leaves the default where it was."""
+    n = 0
+    al = [c for c in alphabet(cs) if ord(c) > 127] or alphabet(cs)
+    rng = random.Random(f'{cs}:markup')
+    for token in MARKUP:
+        try:
+            if token.encode(cs).decode(cs) != token:
+                continue
+        except UnicodeError:
+            continue
+        for t in rmeta.TEXT_TYPES:
+            case = {'kind': 'markup-text', 'charset': cs, 'type': t, 'token': repr(token)}
+            tail = ''.join(rng.choice(al) for _ in range(4))
+            others = [x for x in rmeta.TEXT_TYPES if x != t]
+            events = [(t, token + tail), (rng.choice(others), tail + 'a'), (t, tail), (rng.choice(others), token)]
+            mid = MidiFile(charset=cs)
+            tr = mid.add_track()
+            for et, text in events:
+                tr.append(MetaMessage(et, **{rmeta.SPECS[et][1][0]: text}, time=1))
+            try:
+                buf = io.BytesIO()
+                mid.save(file=buf)
+                check_probe(ctx, 'default charset after successful call', f'leak-after-save:{cs}', case)
+                back = MidiFile(file=io.BytesIO(buf.getvalue()), charset=cs)
+                check_probe(ctx, 'default charset after successful call', f'leak-after-load:{cs}', case)
+                got = [(m.type, getattr(m, rmeta.SPECS[m.type][1][0])) for m in back.tracks[0] if m.type in rmeta.TEXT_TYPES]
+                ctx.check('loaded text == original', got == events, f'markup-text-differs:{cs}', case, lambda: {'got': got, 'want': events})
+                d = smf.decode_file(buf.getvalue())
+                pay = [bytes(e[3]) for e in d['tracks'][0] if e[0] == 'meta' and e[2] != 0x2F]
+                ctx.check('file payload == text.encode(charset)', pay == [x.encode(cs) for _, x in events], f'markup-payload:{cs}', case, None)
+            except Exception as exc:
+                ctx.fail('loaded text == original', f'markup:{type(exc).__name__}:{cs}', case, f'{type(exc).__name__}: {exc}')
+                restore_default()
+            # the same event decoded on its own, outside any file
+            try:
+                raw = (token + 'x').encode('latin1', 'replace')
+                MetaMessage.from_bytes([0xFF, rmeta.SPECS[t][0], len(raw)] + list(raw))
+            except Exception:
+                pass
+            check_probe(ctx, 'default charset after successful call', 'leak-after-from_bytes-of-markup', case)
+            n += 1
+    return n
+
+
 def context_manager_case(ctx, cs):
     """MidiFile is also a context manager ("kept around since it was used in examples"): the charset
     must not be in force inside or after the block, nor after a bare __enter__()."""
@@ -756,6 +807,11 @@ def run(ctx):
             nested_case(ctx, o, i)
             ctx.nontrivial(('nested', o, i))
             k += 1
+    for ci, cs in enumerate(CHARSETS):
+        if (ci + 5) % N == sh:
+            k_ = markup_text_cases(ctx, cs)
+            ctx.nontrivial(None, k_)
+            k += k_
     for ci, cs in enumerate(CHARSETS):
         if cs != 'latin1' and ci % N == sh:
             context_manager_case(ctx, cs)
